@@ -1,30 +1,61 @@
 #!/usr/bin/env python3
-"""Runs the checks against freshly delivered (not yet imported) agent mutants: /tmp/wt/<ID><suffix>-out/m*/patch.diff.
-usage: fresh_mutants.py <suffix> [ID ...]"""
+"""Runs all checks against freshly delivered (not yet imported) agent patches without touching /repo's working tree:
+/tmp/wt/<ID><suffix>-out/<m|r>*/patch.diff is applied to a scratch export of /repo's HEAD (git archive).
+usage: fresh_mutants.py <suffix> [ID ...]      env: JOBS (default 4), KIND=m|r (default m)
+For KIND=m prints CAUGHT/MISSED (own property's check), for KIND=r prints SILENT/ALARM (any check)."""
 import json, os, re, shutil, subprocess, sys
+from concurrent.futures import ThreadPoolExecutor
 from pathlib import Path
 V = Path('/verif'); suf = sys.argv[1]
 ids = sys.argv[2:] or [f'C{i:02d}' for i in range(1, 21)]
-scratch = Path('/var/tmp/verif-fresh-mutants'); evd = Path('/var/tmp/verif-fresh-evidence')
-props = [f'C{i:02d}' for i in range(1, 21)]
+kind = os.environ.get('KIND', 'm')
+jobs = int(os.environ.get('JOBS', '4'))
+base = Path('/var/tmp/verif-fresh')
+
+
+def one(arg):
+    pid, d = arg
+    tag = f'{pid}{suf}-{d.name}'
+    scratch = base / tag / 'tree'; evd = base / tag / 'ev'
+    shutil.rmtree(base / tag, ignore_errors=True)
+    scratch.mkdir(parents=True)
+    subprocess.check_call(f'git -C /repo archive HEAD | tar -x -C {scratch}', shell=True)
+    r = subprocess.run(['git', 'apply', '--unsafe-paths', '--directory', str(scratch), str(d / 'patch.diff')], capture_output=True, text=True, cwd='/')
+    if r.returncode != 0:
+        shutil.rmtree(base / tag, ignore_errors=True)
+        return f'{pid}/{d.name} PATCH FAILED {r.stderr[:200]}'
+    env = dict(os.environ, VERIF_REPO=str(scratch), VERIF_EVIDENCE_DIR=str(evd))
+    rr = subprocess.run([str(V / 'check'), '--all'], capture_output=True, text=True, env=env, cwd='/')
+    fired = {}; cur = []
+    for line in (rr.stdout + rr.stderr).splitlines():
+        m = re.match(r'^\s+(violation|unrecognised-construct): (.*)$', line)
+        if m:
+            if '<floor>' not in m.group(2): cur.append(m.group(2)[:150])
+            continue
+        m = re.match(r'^\[(C\d\d)\] .* (\d+) violation\(s\)', line)
+        if m:
+            if int(m.group(2)) and cur: fired[m.group(1)] = cur[:3]
+            elif int(m.group(2)): fired[m.group(1)] = ['<floor/anchor only>']
+            cur = []
+        elif re.match(r'^\[(C\d\d)\]', line) or 'Traceback' in line:
+            fired.setdefault('ERROR', []).append(line[:200])
+    summ = ''
+    try: summ = re.sub(r'\s+', ' ', json.load(open(d / 'meta.json')).get('summary', ''))[:140]
+    except Exception: pass
+    shutil.rmtree(base / tag, ignore_errors=True)
+    if kind == 'm':
+        verdict = 'CAUGHT' if pid in fired else 'MISSED'
+    else:
+        verdict = 'ALARM' if fired else 'SILENT'
+    return f'{pid}/{d.name} {verdict} | {fired} | {summ}'
+
+
+work = []
 for pid in ids:
     out = Path(f'/tmp/wt/{pid}{suf}-out')
-    for d in sorted(out.glob('m*')):
-        if not (d / 'patch.diff').exists(): continue
-        if scratch.exists(): shutil.rmtree(scratch)
-        subprocess.check_call(['rsync', '-a', '--exclude', '/target', '--exclude', '.git', '/repo/', str(scratch) + '/'])
-        r = subprocess.run(['git', 'apply', '--unsafe-paths', '--directory', str(scratch), str(d / 'patch.diff')], capture_output=True, text=True, cwd='/')
-        if r.returncode != 0:
-            print(pid, d.name, 'PATCH FAILED'); continue
-        env = dict(os.environ, VERIF_REPO=str(scratch), VERIF_EVIDENCE_DIR=str(evd))
-        fired = {}
-        for p in props:
-            rr = subprocess.run([str(V / 'check'), p], capture_output=True, text=True, env=env)
-            keys = [k for k in re.findall(r'^\s+(?:violation|unrecognised-construct): (.*)$', rr.stdout, re.M) if '<floor>' not in k]
-            if rr.returncode == 1 and keys: fired[p] = [k[:110] for k in keys[:3]]
-            elif rr.returncode not in (0, 1): fired[p] = ['<error>']
-        summ = ''
-        try: summ = json.load(open(d / 'meta.json')).get('summary', '')[:140]
-        except Exception: pass
-        print(f'{pid}/{d.name}', 'CAUGHT' if pid in fired else 'MISSED', '|', {k: v for k, v in fired.items()}, '|', summ, flush=True)
-shutil.rmtree(scratch, ignore_errors=True); shutil.rmtree(evd, ignore_errors=True)
+    for d in sorted(out.glob(f'{kind}*')):
+        if (d / 'patch.diff').exists(): work.append((pid, d))
+with ThreadPoolExecutor(jobs) as ex:
+    for line in ex.map(one, work):
+        print(line, flush=True)
+shutil.rmtree(base, ignore_errors=True)
